@@ -2511,6 +2511,15 @@ fn convert_value_to_type2<'a>(
         let text = inner.as_str();
         // Remove quotes
         let text_content = &text[1..text.len() - 1];
+        if !unicode_escapes_are_scalar_values(text_content) {
+          return Err(Error::PARSER {
+            position: pest_span_to_position(&inner.as_span(), input),
+            msg: ErrorMsg {
+              short: "Invalid unicode escape in text string".to_string(),
+              extended: None,
+            },
+          });
+        }
         // Handle escape sequences
         let unescaped = unescape_text(text_content);
         return Ok(ast::Type2::TextValue {
@@ -2548,6 +2557,14 @@ fn convert_value_to_type2<'a>(
         let text = inner.as_str();
         // Remove quotes
         let text_content = &text[1..text.len() - 1];
+        if !unicode_escapes_are_scalar_values(text_content) {
+          return Err(Error::PARSER {
+            msg: ErrorMsg {
+              short: "Invalid unicode escape in text string".to_string(),
+              extended: None,
+            },
+          });
+        }
         // Handle escape sequences
         let unescaped = unescape_text(text_content);
         return Ok(ast::Type2::TextValue {
@@ -2570,6 +2587,57 @@ fn convert_value_to_type2<'a>(
 }
 
 /// Unescape text value (supports RFC 9682 \u{hex} escapes and surrogate pairs)
+/// RFC 9682 2.1: a `\u` escape has to denote a Unicode scalar value. A lone or
+/// reversed surrogate, a surrogate spelled as `\u{...}` and a value above
+/// U+10FFFF have no value to unescape to; such a literal is rejected instead of
+/// silently losing the escape. The escape syntax itself is checked by the grammar.
+fn unicode_escapes_are_scalar_values(text: &str) -> bool {
+  let b = text.as_bytes();
+  let hex4 = |i: usize| -> Option<u32> {
+    b.get(i..i + 4)
+      .and_then(|h| std::str::from_utf8(h).ok())
+      .and_then(|h| u32::from_str_radix(h, 16).ok())
+  };
+  let mut i = 0;
+  while i < b.len() {
+    if b[i] != b'\\' {
+      i += 1;
+      continue;
+    }
+    if b.get(i + 1) != Some(&b'u') {
+      i += 2;
+      continue;
+    }
+    if b.get(i + 2) == Some(&b'{') {
+      let end = match text[i + 3..].find('}') {
+        Some(e) => i + 3 + e,
+        None => return false,
+      };
+      match u32::from_str_radix(&text[i + 3..end], 16) {
+        Ok(cp) if char::from_u32(cp).is_some() => (),
+        _ => return false,
+      }
+      i = end + 1;
+      continue;
+    }
+    match hex4(i + 2) {
+      Some(hi) if (0xD800..=0xDBFF).contains(&hi) => {
+        let low_follows = b.get(i + 6) == Some(&b'\\')
+          && b.get(i + 7) == Some(&b'u')
+          && b.get(i + 8) != Some(&b'{');
+        match hex4(i + 8) {
+          Some(lo) if low_follows && (0xDC00..=0xDFFF).contains(&lo) => i += 12,
+          _ => return false,
+        }
+      }
+      Some(lo) if (0xDC00..=0xDFFF).contains(&lo) => return false,
+      Some(_) => i += 6,
+      None => return false,
+    }
+  }
+  true
+}
+
 fn unescape_text(text: &str) -> String {
   let mut result = String::new();
   let mut chars = text.chars();
